@@ -1,0 +1,31 @@
+//go:build verif
+
+// Contracts for govc (/verif): C20 -- the codec of stored ROUND records (common.Round.Marshal / common.UnmarshalRound).
+// Comment-only file. The decode functions below read the fields of the record encoded by the byte string with value
+// id v (T-KV, trusted/badger.spec); Marshal/UnmarshalRound are ASSUMED to be a codec pair for them (round.go: Marshal
+// writes Hash, NodeId, Number, Timestamp, then the reference count 0 or 2 and the two hashes; UnmarshalRound reads them
+// back in the same order with the same fixed widths).
+
+package common
+
+//@ uninterp RoundHashOf(v mathint) crypto.Hash
+//@ uninterp RoundNodeIdOf(v mathint) crypto.Hash
+//@ uninterp RoundNumberOf(v mathint) mathint
+//@ uninterp RoundTimestampOf(v mathint) mathint
+//@ uninterp RoundHasRefs(v mathint) bool
+//@ uninterp RoundSelfOf(v mathint) crypto.Hash
+//@ uninterp RoundExternalOf(v mathint) crypto.Hash
+
+//@ spec RoundDecodes(r *Round, v mathint) bool = r.Hash == RoundHashOf(v) && r.NodeId == RoundNodeIdOf(v) && r.Number == RoundNumberOf(v) &&
+//@     r.Timestamp == RoundTimestampOf(v) && (r.References != nil <==> RoundHasRefs(v)) &&
+//@     (r.References != nil ==> r.References.Self == RoundSelfOf(v) && r.References.External == RoundExternalOf(v))
+
+//@ assume func (r *Round) Marshal
+//@   requires r != nil
+//@   modifies nothing
+//@   ensures fresh(result) && RoundDecodes(r, kvval(result))
+
+//@ assume func UnmarshalRound(b)
+//@   modifies nothing
+//@   ensures err != nil ==> result0 == nil
+//@   ensures err == nil ==> result0 != nil && fresh(result0) && RoundDecodes(result0, kvval(b))
